@@ -209,6 +209,8 @@ def c13(run):
     # long histories: many event/response cycles per core
     random_round(run, "long", run.seed, 60 if q else 400, ["core", "bridge_bin", "bridge_json"], "mixed", 2,
                  300 if q else 2000, selftest=True)
+    # many different programs with aborts and drops, medium length (occupancy after every call)
+    random_round(run, "broad", run.seed + 9, 900 if q else 9000, ["direct", "core", "bridge_bin"], "mixed", 3, 30)
     # requests spent by an undecodable response must be forgotten as well
     random_round(run, "longbad", run.seed + 3, 40 if q else 300, ["bridge_bin", "bridge_json"], "mixed", 2,
                  200 if q else 1500, bad=0.15)
@@ -255,6 +257,7 @@ def c12(run):
 MT_CFG = """SPECIFICATION {spec}
 CONSTANTS Threads = {{{threads}}}
 FixedOrder = {fixed}
+Scenario = "{scn}"
 INVARIANT NeverTornDown
 INVARIANT AllDelivered
 INVARIANT NoDuplicates
@@ -273,15 +276,17 @@ def c08(run):
         "harness built with debug-assertions off"]
     q = run.quick
     # 1. the interleaving-level model, exhaustively
-    for n in ([2] if q else [2, 3]):
-        th = ", ".join(str(i) for i in range(1, n + 1))
-        lib.mc(run, "CruxMT", MT_CFG.format(spec="Spec", threads=th, fixed="TRUE", extra="INVARIANT NoStuck\n"), {},
-               workers=12, timeout=1500,
-               need_actions=("CtCount", "CwDrop", "ExRun", "CoUpdate", "ExRemove", "ExPutback"),
-               label=f"CruxMT[{n} callers]")
+    for scn in ("stream", "all"):
+        for n in ([2] if q else [2, 3]):
+            th = ", ".join(str(i) for i in range(1, n + 1))
+            lib.mc(run, "CruxMT", MT_CFG.format(spec="Spec", threads=th, fixed="TRUE", scn=scn,
+                                                extra="INVARIANT NoStuck\n"), {},
+                   workers=12, timeout=1500,
+                   need_actions=("CtCount", "CwDrop", "ExRun", "CoUpdate", "ExRemove", "ExPutback"),
+                   label=f"CruxMT[{scn}, {n} callers]")
     # the model must be able to express the eviction race (sensitivity): with the reads in the
     # other order TLC has to find the torn-down subscription
-    rc, out = lib.tlc("CruxMT", MT_CFG.format(spec="Spec", threads="1, 2", fixed="FALSE", extra=""), {}, workers=4,
+    rc, out = lib.tlc("CruxMT", MT_CFG.format(spec="Spec", threads="1, 2", fixed="FALSE", scn="stream", extra=""), {}, workers=4,
                       timeout=300, tag="sens")
     if "Invariant NeverTornDown is violated" not in out:
         raise lib.ToolError("CruxMT no longer finds the eviction race with the unrepaired read order (model lost sensitivity)")
@@ -291,9 +296,10 @@ def c08(run):
               "sched": [1] * 13 + [2, 1, 2, 2, 2, 2, 1]},
              {"name": "round-robin", "scenario": "stream_bridge", "threads": 2, "sched": []},
              {"name": "round-robin-3", "scenario": "stream_bridge", "threads": 3, "sched": []}]
-    for n, num in ((2, 1500 if q else 20000), (3, 500 if q else 20000)):
+    for scn, n, num in (("stream", 2, 1500 if q else 20000), ("stream", 3, 500 if q else 20000),
+                        ("all", 2, 1000 if q else 20000), ("all", 3, 300 if q else 10000)):
         th = ", ".join(str(i) for i in range(1, n + 1))
-        out = lib.tlc_simulate("MC_MT", MT_CFG.format(spec="MSpec", threads=th, fixed="TRUE",
+        out = lib.tlc_simulate("MC_MT", MT_CFG.format(spec="MSpec", threads=th, fixed="TRUE", scn=scn,
                                                       extra="INVARIANT EmitSched\n"),
                                num, 600, run.seed + n, timeout=1200)
         seen = set()
@@ -301,7 +307,8 @@ def c08(run):
             if m.group(1) in seen:
                 continue
             seen.add(m.group(1))
-            cases.append({"name": f"tlc-sim-{n}-{len(seen)}", "scenario": "stream_bridge", "threads": n,
+            cases.append({"name": f"tlc-sim-{scn}-{n}-{len(seen)}",
+                          "scenario": "stream_bridge" if scn == "stream" else "all_core", "threads": n,
                           "sched": json.loads(m.group(1))})
         if len(seen) < num // 4:
             raise lib.ToolError("too few schedules harvested from TLC simulation")
@@ -334,8 +341,8 @@ def c08(run):
                        "distinct_interleavings": len(distinct), "schedules_followed_without_skips": exact,
                        "point_names_seen": sorted(points)})
     # 3. systematic preemption-bounded enumeration on the real threads (both scenarios)
-    for scn, k, p, stride in (("stream_bridge", 2, 2 if q else 3, 1), ("join_core", 3, 2, 1 if not q else 2),
-                              ("all_core", 2, 2, 1), ("stream_bridge", 3, 1 if q else 2, 1)):
+    for scn, k, p, stride in (("stream_bridge", 2, 2 if q else 3, 1), ("join_core", 3, 2, 1 if not q else 3),
+                              ("all_core", 2, 2, 1 if not q else 2), ("stream_bridge", 3, 1 if q else 2, 1)):
         op2 = run.path(f"mtenum_{scn}_{k}.out")
         rc, out = lib.sh([lib.BIN, "mtenum", scn, str(k), str(p), op2, str(stride)], timeout=6000)
         if rc != 0:
